@@ -9,6 +9,8 @@ package main
 //                 additive share whatever the ordering, and the shares sum to the ideal secret key
 //   too_few       fewer than t active points ⇒ error, output untouched
 //   agg_order     aggregating the received Shamir shares in another order gives the same share
+//   history / receiver-reuse probes: see c15_history.go; wrapped-difference points and N = 7, 8
+//                 with 61-bit moduli: see c15_wide.go
 //   reconstruct_collide   at points that are distinct non-zero uint64s but collide modulo one of
 //                 the primes (the hypothesis the Lean reconstruction proof forces): the two colliding
 //                 parties' GenAdditiveShare must return an error and leave the output untouched, the
@@ -66,6 +68,8 @@ func c15Sets() []c15Set {
 		c15NewSet("noP", 4, []uint64{12289, 40961}, nil),
 		c15NewSet("mid", 4, []uint64{c15NTTPrime(1<<36, 32, 0), c15NTTPrime(1<<45, 32, 1)}, []uint64{c15NTTPrime(1<<50, 32, 0)}),
 		c15NewSet("big", 5, []uint64{c15NTTPrime(1<<60, 64, 0), c15NTTPrime(1<<59, 64, 2), c15NTTPrime(1<<55, 64, 0)}, []uint64{c15NTTPrime(1<<61, 64, 0)}),
+		// every modulus of the largest accepted size class (61 bits), Q and P
+		c15NewSet("max61", 4, []uint64{c15NTTPrime(1<<61, 32, 0), c15NTTPrime(1<<61, 32, 1)}, []uint64{c15NTTPrime(1<<61, 32, 2)}),
 	}
 }
 
@@ -550,6 +554,9 @@ func genC15(c *Ctx) {
 
 	c15Boundary(c, sets)
 	c15Malformed(c, sets)
+	c15History(c, sets)
+	c15WrapDiff(c, sets)
+	c15Wide(c, sets)
 }
 
 // c15Boundary: the points the proof excludes — distinct non-zero uint64s that collide modulo a
